@@ -4,8 +4,8 @@ package main
 // violated while no existing rule looked at it.
 
 import (
-	"go/ast"
 	"fmt"
+	"go/ast"
 	"go/token"
 	"go/types"
 	"sort"
@@ -2029,4 +2029,64 @@ func ruleAnalysisFromAnalyzer(c *Ctx) {
 		}
 	}
 	c.census("I-SOURCE", "constructions of an analysis result", n, 1)
+}
+
+// ruleResolvedTreeReadOnly (TREE-RO): the features answer from the include tree they are handed (by the loader
+// or by the workspace, as a snapshot); they never narrow or rewrite it.  In package server there is no delete
+// from, update of or assignment to the Files / FileOrder / Primary of an include.ResolvedJournal: a tree with
+// files removed "because the index does not mention the symbol" silently loses the occurrences the index does not
+// list (commodities of balance assertions, ...).
+func ruleResolvedTreeReadOnly(c *Ctx) {
+	spk := c.P.SSAPkg("internal/server")
+	treeField := func(addr ssa.Value) string {
+		fa, ok := addr.(*ssa.FieldAddr)
+		if !ok || !typeHasSuffix(fa.X.Type().Underlying().(*types.Pointer).Elem(), "include.ResolvedJournal") {
+			return ""
+		}
+		return fieldVarOfAddr(fa).Name()
+	}
+	n, nReads := 0, 0
+	for _, f := range c.P.ModuleFuncs() {
+		top := f
+		for top.Parent() != nil {
+			top = top.Parent()
+		}
+		if top.Pkg != spk {
+			continue
+		}
+		for _, b := range f.Blocks {
+			for _, ins := range b.Instrs {
+				what := ""
+				switch x := ins.(type) {
+				case *ssa.Store:
+					if fld := treeField(x.Addr); fld != "" {
+						if _, fresh := x.Addr.(*ssa.FieldAddr).X.(*ssa.Alloc); !fresh {
+							what = "assigns " + fld
+						}
+					}
+				case *ssa.MapUpdate:
+					if ld, ok := x.Map.(*ssa.UnOp); ok && treeField(ld.X) != "" {
+						what = "stores into " + treeField(ld.X)
+					}
+				case *ssa.Call:
+					if bi, ok := x.Call.Value.(*ssa.Builtin); ok && (bi.Name() == "delete" || bi.Name() == "clear") && len(x.Call.Args) > 0 {
+						if ld, ok := x.Call.Args[0].(*ssa.UnOp); ok && treeField(ld.X) != "" {
+							what = bi.Name() + "s from " + treeField(ld.X)
+						}
+					}
+				case *ssa.FieldAddr:
+					if treeField(x) != "" {
+						nReads++
+					}
+				}
+				if what == "" {
+					continue
+				}
+				n++
+				c.finding("TREE-RO", funcName(f), "the include tree is not modified by the features", ins.Pos(),
+					"package server "+what+" of a resolved include tree: the tree the references / rename / hover code walks is no longer the tree the loader or the workspace built - files and occurrences are silently left out")
+			}
+		}
+	}
+	c.census("TREE-RO", "accesses to a resolved tree's fields in package server", nReads, 3)
 }
